@@ -8,9 +8,10 @@ import vlib
 ALL = ["C%02d" % i for i in range(1, 21)]
 checks, served, na = [], [], []
 NA_REASONS = {}
+CLAIMED = open(os.path.join(vlib.VERIF, "tools", "claimed.txt")).read().split()
 for pid in ALL:
     p = os.path.join(vlib.VERIF, "tools", "props", pid.lower() + ".py")
-    if not os.path.exists(p):
+    if pid not in CLAIMED or not os.path.exists(p):
         na.append(dict(property_id=pid, reason=NA_REASONS.get(pid, "not yet claimed: model/theorems/correspondence under construction (see DESIGN.md §6); the proof technique applies")))
         continue
     mod = importlib.import_module("props." + pid.lower())
